@@ -199,12 +199,15 @@ public:
     virtual void
     reset()
     {
-        std::for_each(
-            m_blocks.begin(),
-            m_blocks.end(),
-            DeleteFunctor<ArenaBlockType>(m_blocks.getMemoryManager()));
+        if (m_blocks.empty() == false)
+        {
+            std::for_each(
+                m_blocks.begin(),
+                m_blocks.end(),
+                DeleteFunctor<ArenaBlockType>(m_blocks.getMemoryManager()));
 
-        m_blocks.clear();
+            m_blocks.clear();
+        }
     }
 
 protected:
